@@ -6,6 +6,8 @@ import Cfdm.Driver.C15
 import Cfdm.Driver.C06
 import Cfdm.Driver.C05
 import Cfdm.Driver.C18
+import Cfdm.Driver.C16
+import Cfdm.Driver.C19
 open Cfdm.Driver
 
 def step (line : String) : String :=
@@ -23,6 +25,8 @@ def step (line : String) : String :=
       | ["C06", sub] => C06.run sub kv
       | ["C05", sub] => C05.run sub kv
       | ["C18", sub] => C18.run sub kv
+      | ["C16", sub] => C16.run sub kv
+      | ["C19", sub] => C19.run sub kv
       | _ => "bad-op"
 
 partial def loop (h : IO.FS.Stream) : IO Unit := do
